@@ -528,6 +528,7 @@ archive_read_format_tar_read_header(struct archive_read *a,
 	int r;
 	size_t l;
 	int64_t unconsumed = 0;
+	int is_sparse;
 
 	/* Assign default device/inode values. */
 	archive_entry_set_dev(entry, 1 + default_dev); /* Don't use zero. */
@@ -562,7 +563,8 @@ archive_read_format_tar_read_header(struct archive_read *a,
 	 * "non-sparse" files are really just sparse files with
 	 * a single block.
 	 */
-	if (tar->sparse_list == NULL) {
+	is_sparse = (tar->sparse_list != NULL);
+	if (!is_sparse) {
 		if (gnu_add_sparse_entry(a, tar, 0, tar->entry_bytes_remaining)
 		    != ARCHIVE_OK)
 			return (ARCHIVE_FATAL);
@@ -598,6 +600,13 @@ archive_read_format_tar_read_header(struct archive_read *a,
 			}
 		}
 	}
+	/*
+	 * read_data() returns disk_size as the offset at which the entry
+	 * ends.  Only a sparse map can put that beyond the stored body;
+	 * links, directories and the like had their body dropped above.
+	 */
+	if (!is_sparse)
+		tar->disk_size = tar->entry_bytes_remaining;
 	return (r);
 }
 
